@@ -185,8 +185,8 @@ def run(C, R):
             for r in roots:
                 fn = F.fn(r)
                 tr = (fn.get('impl_trait') or '') if fn else ''
-                pinned = fn and fn.get('name') in ('poll', 'poll_next') and tr.endswith(('::Future', '::Stream')) \
-                    and fn['locals'][1]['ty'].get('path') == 'std::pin::Pin'
+                # the root receives its future pinned (poll / poll_next, or any other method taking `Pin<&mut Self>`)
+                pinned = fn and fn['arg_count'] >= 1 and fn['locals'][1]['ty'].get('path') == 'std::pin::Pin'
                 if pinned:
                     R.ok('C01.I4', '%s reached only via %s' % (lk, r))
                 else:
@@ -228,6 +228,10 @@ def run(C, R):
             own = set(m['path'] for m in F.methods_of(sp))
             for m in F.methods_of(sp):
                 if m.get('name') == 'new':
+                    continue
+                # an associated function without a state receiver (another constructor) touches no shared state
+                t1 = m['locals'][1]['ty'] if m['arg_count'] >= 1 else {}
+                if not (t1.get('k') == 'ref' and t1.get('ty', {}).get('path') == sp):
                     continue
                 for c, _ln in CG.callers_of(m['path']):
                     if c in own:
@@ -503,8 +507,11 @@ def panic_sites(C, R, F, E, roles, cfg):
                 cat = 'RingBuf contract ("Panics if ..."): push guarded by C09.R1, pop by the emptiness test (below)'
             elif name == 'expect' and fn.get('name') == 'poll' and tr.endswith('::Future'):
                 cat = 'documented: poll after completion (shape checked by C17.R3)'
-            elif 'after completion' in msg:
-                cat = 'documented: poll after completion'
+            elif 'after completion' in (msg or _expect_msg(fn, b)):
+                cat = 'documented: use after completion'
+            elif name == 'expect' and (fn.get('impl_adt') in roles.futures or
+                                       (fn.get('impl_adt') or '').endswith('TimerFuture')) and _on_handle(F, roles, fn, t):
+                cat = 'documented: a method of a future used after its completion (handle None)'
             elif 'could not be removed from wait queue' in msg:
                 cat = 'unreachable by Inv: C01.I1 proves the failed-unlink panic infeasible on every path'
             elif 'Reached maximum refcount' in msg:
@@ -627,6 +634,26 @@ def _const_str_of_local(fn, l, depth=0):
                     if r:
                         return r
     return ''
+
+
+def _on_handle(F, roles, fn, t):
+    """is the receiver of this expect() the future's handle field (Option<&Primitive>), read from self?"""
+    info = roles.futures.get(fn.get('impl_adt')) or {}
+    hf = info.get('handle_field') or 'timer'
+    a = (t['args'] or [{}])[0]
+    pl = a.get('move') or a.get('copy')
+    if not pl:
+        return False
+    # the operand is a local copied from (*self).<handle field>: look for that assignment in the body
+    for b2 in fn['blocks']:
+        for s_ in b2['stmts']:
+            if s_['k'] == 'assign' and s_['place']['l'] == pl['l'] and not s_['place']['p']:
+                src = s_['rv'].get('use') or {}
+                sp = src.get('copy') or src.get('move')
+                if sp and any(isinstance(e, dict) and e.get('f') == hf or e == hf or (isinstance(e, dict) and e.get('name') == hf)
+                              for e in sp['p']):
+                    return True
+    return False
 
 
 def _expect_msg(fn, b):
